@@ -5,26 +5,6 @@ cumulative-demand axis contains the rounding position.
 -/
 namespace ColoVerif.Transp1d
 
-theorem prefixFrom_lt_succ (acc : Int) (l : List Int) (hpos : ∀ x ∈ l, 0 < x) (i : Nat)
-    (h : i < l.length) : (prefixFrom acc l).getD i 0 < (prefixFrom acc l).getD (i + 1) 0 := by
-  rw [prefixFrom_succ acc l i h]
-  have := hpos _ (getD_mem_of_lt l i h)
-  omega
-
-theorem prefixFrom_mono (acc : Int) (l : List Int) (hpos : ∀ x ∈ l, 0 < x) (i k : Nat)
-    (hik : i ≤ k) (hk : k ≤ l.length) :
-    (prefixFrom acc l).getD i 0 ≤ (prefixFrom acc l).getD k 0 := by
-  induction k with
-  | zero =>
-    have : i = 0 := by omega
-    subst this; exact Int.le_refl _
-  | succ k ih =>
-    by_cases h : i = k + 1
-    · subst h; exact Int.le_refl _
-    · have h1 := ih (by omega) (by omega)
-      have h2 := prefixFrom_lt_succ acc l hpos k (by omega)
-      omega
-
 theorem walk_spec (D : List Int) (pos : Int) (rest : List Int) (cs : Nat)
     (hr : rest = D.drop (cs + 1)) (cs' : Nat) (rest' : List Int)
     (e : walk pos rest cs = .ok (cs', rest')) :
@@ -86,34 +66,22 @@ theorem walk_unique (d : List Int) (hpos : ∀ x ∈ d, 0 < x) (pos : Int) (cs j
       · omega
   exact ⟨this, by rw [k1, this]⟩
 
-theorem sortedSolver_slack (pb : Problem) (hv : checkOk pb = true) :
-    0 ≤ (sortedSolver pb).D.getD (sortedSolver pb).v.length 0
-      - (sortedSolver pb).S.getD (sortedSolver pb).u.length 0 := by
-  obtain ⟨hs, hd, hsn, hdn, hle⟩ := (checkOk_iff pb).mp hv
-  have wf := sortedSolver_wf pb
-  have h2 : (sortedSolver pb).s.sum = pb.s.sum := sum_ord pb.u pb.s hs hsn
-  have h3 : (sortedSolver pb).d.sum = pb.d.sum := sum_ord pb.v pb.d hd hdn
-  have eD : (sortedSolver pb).D = prefixFrom 0 (sortedSolver pb).d := rfl
-  have eS : (sortedSolver pb).S = prefixFrom 0 (sortedSolver pb).s := rfl
-  rw [← wf.hd, ← wf.hs, eD, eS, prefixFrom_last, prefixFrom_last]
-  omega
-
 /-- Geometry of the positions returned by `run` on the instance handed to the solver: source `i`
 occupies `[S i + p i, S (i+1) + p i]` on the cumulative-demand axis; these intervals are inside
 `[0, D.back()]`, in order and disjoint. -/
-theorem run_geometry (fuel : Nat) (pb : Problem) (hv : checkOk pb = true) :
-    Safe (fun p => p.length = (sortedSolver pb).u.length ∧
+theorem run_geometry (pb : Problem) (hv : checkOk pb = true) :
+    ∃ p, run (sortedSolver pb) = .ok p ∧ RunPost (sortedSolver pb) p ∧
+      p.length = (sortedSolver pb).u.length ∧
       (∀ i, i < (sortedSolver pb).u.length → 0 ≤ p.getD i 0 ∧
         (sortedSolver pb).S.getD (i + 1) 0 + p.getD i 0
           ≤ (sortedSolver pb).D.getD (sortedSolver pb).v.length 0) ∧
       (∀ i, i + 1 < (sortedSolver pb).u.length →
         (sortedSolver pb).S.getD (i + 1) 0 + p.getD i 0
-          ≤ (sortedSolver pb).S.getD (i + 1) 0 + p.getD (i + 1) 0))
-      (run (sortedSolver pb) fuel) := by
+          ≤ (sortedSolver pb).S.getD (i + 1) 0 + p.getD (i + 1) 0) := by
   have wf := sortedSolver_wf pb
   have hsl := sortedSolver_slack pb hv
-  refine (run_safe (sortedSolver pb) wf fuel (sortedSolver_sinks pb hv)).mono ?_
-  intro p hp
+  obtain ⟨p, erun, hp⟩ := run_ok (sortedSolver pb) (sortedSolver_dom pb hv) (sortedSolver_sinks pb hv)
+  refine ⟨p, erun, hp, ?_⟩
   refine ⟨hp.len, ?_, ?_⟩
   · intro i hi
     have hmem : p.getD i 0 ∈ p := getD_mem_of_lt p i (by rw [hp.len]; exact hi)
